@@ -230,8 +230,28 @@ func genCase(t *rapid.T) Case {
 	}
 	sigNames := map[string]bool{}
 	ni := rapid.IntRange(1, 3).Draw(t, "nitf")
+	itfNames := make([]string, ni)
+	for i := range itfNames {
+		itfNames[i] = "I" + top.draw(t, "itf", []string{"plain"}, labels)
+	}
+	// actionType: the type of a parameter, result, signal parameter or property;
+	// now and then an object, i.e. an interface of the package
+	// (objects in multi-parameter signals and object-typed properties are
+	// listed findings: left out while they are listed)
+	actionType := func(label string, knownClass string) string {
+		if rapid.IntRange(0, 11).Draw(t, label+"_object") == 0 {
+			name := itfNames[rapid.IntRange(0, ni-1).Draw(t, label+"_itf")]
+			if knownClass != "" && vt.Known(knownClass) {
+				vt.Excluded(knownClass)
+				return drawType(t, structNames, 2)
+			}
+			labels["object-typed-action"] = true
+			return name
+		}
+		return drawType(t, structNames, 2)
+	}
 	for i := 0; i < ni; i++ {
-		itf := Interface{Name: "I" + top.draw(t, "itf", []string{"plain"}, labels)}
+		itf := Interface{Name: itfNames[i]}
 		ag := &nameGen{used: map[string]bool{}}
 		nm := rapid.IntRange(0, 5).Draw(t, "nmethods")
 		for j := 0; j < nm; j++ {
@@ -239,10 +259,10 @@ func genCase(t *rapid.T) Case {
 			pg := &nameGen{used: map[string]bool{}}
 			np := rapid.IntRange(0, 4).Draw(t, "nparams")
 			for k := 0; k < np; k++ {
-				a.Params = append(a.Params, Param{Name: pg.draw(t, "param", paramClasses(), labels), Type: drawType(t, structNames, 2)})
+				a.Params = append(a.Params, Param{Name: pg.draw(t, "param", paramClasses(), labels), Type: actionType("param", "")})
 			}
 			if rapid.Bool().Draw(t, "hasret") {
-				a.Ret = drawType(t, structNames, 2)
+				a.Ret = actionType("ret", "")
 			}
 			// overloads: now and then a method takes the name of an earlier one
 			// of the interface, with a different parameter list
@@ -285,7 +305,11 @@ func genCase(t *rapid.T) Case {
 			pg := &nameGen{used: map[string]bool{}}
 			np := rapid.IntRange(1, 3).Draw(t, "nsparams")
 			for k := 0; k < np; k++ {
-				a.Params = append(a.Params, Param{Name: pg.draw(t, "sparam", paramClasses(), labels), Type: drawType(t, structNames, 2)})
+				cls := ""
+				if np > 1 {
+					cls = "C05:object-in-multi-parameter-signal"
+				}
+				a.Params = append(a.Params, Param{Name: pg.draw(t, "sparam", paramClasses(), labels), Type: actionType("sparam", cls)})
 			}
 			itf.Actions = append(itf.Actions, a)
 		}
@@ -293,7 +317,7 @@ func genCase(t *rapid.T) Case {
 		for j := 0; j < nprop; j++ {
 			a := Action{Kind: "prop", Name: ag.draw(t, "property", actionClasses(), labels)}
 			pg := &nameGen{used: map[string]bool{}}
-			pt := drawType(t, structNames, 2)
+			pt := actionType("prop", "C05:object-typed-property")
 			if pt == "any" && vt.Known("C05:property-of-bare-any") {
 				// known finding: a property declared `any` cannot be written or read
 				// through the generated proxy (NewValue unwraps the dynamic value)
@@ -662,6 +686,31 @@ func hasSignalCollision(c Case) bool {
 	return false
 }
 
+// objectClass names the listed finding an object-typed action of the case
+// falls under, if any.
+func objectClass(c Case) string {
+	isItf := map[string]bool{}
+	for _, itf := range c.Interfaces {
+		isItf[itf.Name] = true
+	}
+	for _, itf := range c.Interfaces {
+		for _, a := range itf.Actions {
+			for _, p := range a.Params {
+				if !isItf[p.Type] {
+					continue
+				}
+				if a.Kind == "prop" {
+					return "C05:object-typed-property"
+				}
+				if a.Kind == "sig" && len(a.Params) > 1 {
+					return "C05:object-in-multi-parameter-signal"
+				}
+			}
+		}
+	}
+	return ""
+}
+
 func hasBareAnyProperty(c Case) bool {
 	for _, itf := range c.Interfaces {
 		for _, a := range itf.Actions {
@@ -723,6 +772,9 @@ func checkCase(c Case) error {
 		if len(lines) > 25 {
 			lines = lines[:25]
 		}
+		if oc := objectClass(c); oc != "" && (strings.Contains(out, "undefined: p") || strings.Contains(out, "undefined: c")) {
+			return vt.Violationf(oc, "the generated package does not compile:\n%s\n--- IDL\n%s", strings.Join(lines, "\n"), text)
+		}
 		return vt.Violationf("C05:does-not-compile:"+identClass(c, out), "the generated package does not compile:\n%s\n--- IDL\n%s", strings.Join(lines, "\n"), text)
 	}
 	if m := violationLine.FindStringSubmatch(out); m != nil {
@@ -766,9 +818,10 @@ func checkCase(c Case) error {
 			usesSharedStruct = true
 		}
 	}
-	calls := 0
-	if m := regexp.MustCompile(`VERIF-GEN-STATS calls=(\d+)`).FindStringSubmatch(out); m != nil {
+	calls, compileOnly := 0, 0
+	if m := regexp.MustCompile(`VERIF-GEN-STATS calls=(\d+) compileonly=(\d+)`).FindStringSubmatch(out); m != nil {
 		fmt.Sscanf(m[1], "%d", &calls)
+		fmt.Sscanf(m[2], "%d", &compileOnly)
 	}
 	nontrivial := (usesSharedStruct || nested) && calls > 0
 	labels := []string{fmt.Sprintf("interfaces=%d", len(c.Interfaces)), fmt.Sprintf("structs=%d", len(c.Structs))}
@@ -795,6 +848,9 @@ func checkCase(c Case) error {
 	}
 	if overloaded {
 		labels = append(labels, "overloaded-method")
+	}
+	if compileOnly > 0 {
+		labels = append(labels, "object-typed-action(compiled,not-exercised)")
 	}
 	vt.LabelN("value-level-calls", int64(calls))
 	vt.LabelN("pipeline-ms", dur.Milliseconds())
